@@ -537,7 +537,7 @@ Fixpoint expr_datum (e : expr) : option value :=
   match e with
   | EInt z => Some (VInt z)
   | EBool b => Some (VBool b)
-  | ENil => Some (VSym kw_nil)
+  | ENil => Some VNil              (* the reader yields SexpNull for nil *)
   | EStr s => Some (VStr s)
   | EVar x => Some (VSym x)
   | EQuote d => Some (list_val [VSym kw_quote; datum_val d])
